@@ -123,10 +123,45 @@ inline Case randomCase(vh::Rng& g, int type, int fcIn, int fcOut, bool rev, bool
 struct Sys {
     MultibodySystem system;
     SimbodyMatterSubsystem matter;
+    std::unique_ptr<GeneralForceSubsystem> forces;   // only when a variant with gravity is requested
     std::vector<MobilizedBody> mobods;     // index i = body i+1 of the record
     State state;
     Sys() : matter(system) {}
 };
+
+// variants of a model used by the metamorphic checks (C06)
+struct BuildOpts {
+    std::vector<bool> flip;          // per body: build with the opposite direction
+    std::vector<bool> functionBased; // per body: build the MobilizedBody::FunctionBased mirror instead of the built-in
+    bool relocate = false; Transform X_reloc;   // premultiply the inboard frame of every Ground-attached body
+    bool gravity = false; Vec3 g = Vec3(0);
+};
+// types that have a FunctionBased mirror with q, u in the same order (x,y,z rotations then x,y,z translations)
+inline bool hasFunctionMirror(int t) {
+    return t == PIN || t == SLIDER || t == CYLINDER || t == PLANAR || t == UNIVERSAL || t == GIMBAL || t == BUSHING || t == TRANSLATION;
+}
+inline MobilizedBody addFunctionMirror(MobilizedBody& parent, const Case& c, const Transform& X_PF, bool rev) {
+    Body::Rigid body(MassProperties(1.3, Vec3(0.1, -0.2, 0.15), UnitInertia(1.1, 1.2, 1.3) * 1.3));
+    // which coordinate drives which of the six spatial functions (-1: constant zero)
+    int slot[6] = {-1, -1, -1, -1, -1, -1};
+    switch (c.type) {
+      case PIN: slot[2] = 0; break;
+      case SLIDER: slot[3] = 0; break;
+      case CYLINDER: slot[2] = 0; slot[5] = 1; break;
+      case PLANAR: slot[2] = 0; slot[3] = 1; slot[4] = 2; break;
+      case UNIVERSAL: slot[0] = 0; slot[1] = 1; break;
+      case GIMBAL: slot[0] = 0; slot[1] = 1; slot[2] = 2; break;
+      case BUSHING: for (int i = 0; i < 6; ++i) slot[i] = i; break;
+      case TRANSLATION: slot[3] = 0; slot[4] = 1; slot[5] = 2; break;
+    }
+    std::vector<const Function*> fns; std::vector<std::vector<int> > idx;
+    for (int i = 0; i < 6; ++i) {
+        if (slot[i] < 0) { fns.push_back(new Function::Constant(0, 0)); idx.push_back(std::vector<int>()); }
+        else { Vector coef(2); coef[0] = 1; coef[1] = 0; fns.push_back(new Function::Linear(coef)); idx.push_back(std::vector<int>(1, slot[i])); }
+    }
+    return MobilizedBody::FunctionBased(parent, X_PF, body, c.X_BM, nuOf(c.type), fns, idx,
+                                        rev ? MobilizedBody::Reverse : MobilizedBody::Forward);
+}
 
 inline MobilizedBody addMobod(MobilizedBody& parent, const Case& c, bool rev) {
     Body::Rigid body(MassProperties(1.3, Vec3(0.1, -0.2, 0.15), UnitInertia(1.1, 1.2, 1.3) * 1.3));
@@ -161,6 +196,25 @@ inline std::unique_ptr<Sys> build(const std::vector<Case>& cs, bool euler, bool 
     for (size_t i = 0; i < cs.size(); ++i) {
         MobilizedBody parent = cs[i].parent == 0 ? MobilizedBody(S->matter.updGround()) : S->mobods[cs[i].parent - 1];
         S->mobods.push_back(addMobod(parent, cs[i], cs[i].type == WELD ? false : (cs[i].rev != flipDir)));
+    }
+    S->system.realizeTopology();
+    S->state = S->system.getDefaultState();
+    S->matter.setUseEulerAngles(S->state, euler);
+    S->system.realizeModel(S->state);
+    return S;
+}
+inline std::unique_ptr<Sys> buildEx(const std::vector<Case>& cs, bool euler, const BuildOpts& o) {
+    std::unique_ptr<Sys> S(new Sys);
+    if (o.gravity) { S->forces.reset(new GeneralForceSubsystem(S->system)); Force::UniformGravity(*S->forces, S->matter, o.g); }
+    for (size_t i = 0; i < cs.size(); ++i) {
+        MobilizedBody parent = cs[i].parent == 0 ? MobilizedBody(S->matter.updGround()) : S->mobods[cs[i].parent - 1];
+        Case c = cs[i];
+        if (o.relocate && c.parent == 0) c.X_PF = o.X_reloc * c.X_PF;
+        const bool flip = i < o.flip.size() && o.flip[i];
+        const bool rev = c.type == WELD ? false : (c.rev != flip);
+        if (i < o.functionBased.size() && o.functionBased[i] && hasFunctionMirror(c.type))
+            S->mobods.push_back(addFunctionMirror(parent, c, c.X_PF, rev));
+        else S->mobods.push_back(addMobod(parent, c, rev));
     }
     S->system.realizeTopology();
     S->state = S->system.getDefaultState();
